@@ -522,7 +522,21 @@ func r117(c *Ctx) {
 	visit(ini)
 	isEffect := func(in ssa.Instruction) bool {
 		switch x := in.(type) {
-		case *ssa.Store, *ssa.MapUpdate, *ssa.Send, *ssa.MakeClosure, *ssa.Go, *ssa.Defer, *ssa.Panic:
+		case *ssa.Store:
+			// writing a local variable that stays in the function (a parameter copy made by an expanded helper) changes nothing
+			addr := x.Addr
+			for {
+				if fa, ok := addr.(*ssa.FieldAddr); ok {
+					addr = fa.X
+					continue
+				}
+				break
+			}
+			if a, ok := addr.(*ssa.Alloc); ok && !a.Heap {
+				return false
+			}
+			return true
+		case *ssa.MapUpdate, *ssa.Send, *ssa.MakeClosure, *ssa.Go, *ssa.Defer, *ssa.Panic:
 			return true
 		case *ssa.Call:
 			if _, isB := x.Call.Value.(*ssa.Builtin); isB {
